@@ -434,12 +434,12 @@ var scalarTypes = map[string]bool{"double": true, "float": true, "int32": true, 
 // Types defined by imported files.  Imports are not read: they are opaque
 // names whose kind comes from this table.
 var importedTypes = map[string]map[string]string{
-	"google/api/annotations.proto": {},
-	"google/api/http.proto":        {"google.api.Http": "message", "google.api.HttpRule": "message", "google.api.CustomHttpPattern": "message"},
-	"google/protobuf/timestamp.proto": {"google.protobuf.Timestamp": "message"},
-	"google/protobuf/duration.proto":  {"google.protobuf.Duration": "message"},
-	"google/protobuf/empty.proto":     {"google.protobuf.Empty": "message"},
-	"google/protobuf/any.proto":       {"google.protobuf.Any": "message"},
+	"google/api/annotations.proto":     {},
+	"google/api/http.proto":            {"google.api.Http": "message", "google.api.HttpRule": "message", "google.api.CustomHttpPattern": "message"},
+	"google/protobuf/timestamp.proto":  {"google.protobuf.Timestamp": "message"},
+	"google/protobuf/duration.proto":   {"google.protobuf.Duration": "message"},
+	"google/protobuf/empty.proto":      {"google.protobuf.Empty": "message"},
+	"google/protobuf/any.proto":        {"google.protobuf.Any": "message"},
 	"google/protobuf/field_mask.proto": {"google.protobuf.FieldMask": "message"},
 	"google/protobuf/struct.proto": {"google.protobuf.Struct": "message", "google.protobuf.Value": "message",
 		"google.protobuf.ListValue": "message", "google.protobuf.NullValue": "enum"},
